@@ -268,6 +268,7 @@ func prepareOutputDirectory(outputDir string, force bool) error {
 				return fmt.Errorf("output directory %q is not empty; pass -force to replace it", outputDir)
 			}
 
+			fsStep("output.remove-all")
 			if err := os.RemoveAll(outputDir); err != nil {
 				return fmt.Errorf("replace output directory: %w", err)
 			}
@@ -276,6 +277,7 @@ func prepareOutputDirectory(outputDir string, force bool) error {
 		return fmt.Errorf("inspect output directory: %w", err)
 	}
 
+	fsStep("output.mkdir")
 	if err := os.MkdirAll(outputDir, 0o755); err != nil {
 		return fmt.Errorf("create output directory: %w", err)
 	}
@@ -634,12 +636,14 @@ func dumpNodePhase(ctx context.Context, db graph.Database, targetGraph graph.Gra
 
 		files = append(files, fileEntry)
 		if !hasLastWrittenID {
+			fsStep("fragment.unpublish")
 			_ = os.Remove(filepath.Join(options.OutputDir, filepath.FromSlash(fileEntry.Path)))
 			files = files[:len(files)-1]
 			return fmt.Errorf("node fragment %q closed without a committed source cursor", fileEntry.Path)
 		}
 		if onCommit != nil {
 			if err := onCommit(fileEntry, lastWrittenID); err != nil {
+				fsStep("fragment.unpublish")
 				_ = os.Remove(filepath.Join(options.OutputDir, filepath.FromSlash(fileEntry.Path)))
 				files = files[:len(files)-1]
 				return err
@@ -741,12 +745,14 @@ func dumpEdgePhase(ctx context.Context, db graph.Database, targetGraph graph.Gra
 
 		files = append(files, fileEntry)
 		if !hasLastWrittenID {
+			fsStep("fragment.unpublish")
 			_ = os.Remove(filepath.Join(options.OutputDir, filepath.FromSlash(fileEntry.Path)))
 			files = files[:len(files)-1]
 			return fmt.Errorf("edge fragment %q closed without a committed source cursor", fileEntry.Path)
 		}
 		if onCommit != nil {
 			if err := onCommit(fileEntry, lastWrittenID); err != nil {
+				fsStep("fragment.unpublish")
 				_ = os.Remove(filepath.Join(options.OutputDir, filepath.FromSlash(fileEntry.Path)))
 				files = files[:len(files)-1]
 				return err
